@@ -342,14 +342,29 @@ def run(ctx):
         run_doc(ctx, rep, corr, comps, "enum-mux-orders", rng, 0, values_of=lambda c: G.enum_mux_values(vrng, c))
     # (c'') BYTE-SIZE structures with explicitly positioned members in every listing order; terminated MIN-MAX objects with values
     #       around the termination sequence
-    for fam, it in (("enum-struct-layout-orders", G.enum_struct_layout_orders()), ("enum-minmax-terminated", G.enum_minmax_terminated())):
-        fixed, comps = {}, []
-        for c, v in it:
+    CURSOR = "nested-structure-cursor-behind-last-listed-parameter"
+    cursor_what = ("a parameter without BYTE-POSITION that follows a nested STRUCTURE whose member listed last is not the one that ends last is placed "
+                   "behind that member, i.e. into the structure (overlap warning, the member behind it is overwritten): same root cause as the "
+                   "open C08 finding of that name")
+    for fam, it in (("enum-struct-layout-orders", G.enum_struct_layout_orders()), ("enum-minmax-terminated", ((c, v, False) for c, v in G.enum_minmax_terminated()))):
+        fixed, comps, flagged = {}, [], set()
+        for c, v, issue in it:
             if c.name not in fixed:
                 comps.append(c)
             fixed.setdefault(c.name, []).append(v)
-        for cs in batches(iter(comps), 24):
+            if issue:
+                flagged.add(c.name)
+        for cs in batches(iter([c for c in comps if c.name not in flagged]), 24):
             run_doc(ctx, rep, corr, cs, fam, rng, 0, values_of=lambda c, fixed=fixed: fixed[c.name])
+        for c in comps:
+            if c.name in flagged:
+                L, err = O.safe_load([c])
+                if L is None:
+                    ctx.count("documents_rejected_by_loader")
+                    continue
+                ctx.histo("family", fam + "(cursor)")
+                for v in fixed[c.name]:
+                    O.c01_check(ctx, rep, corr, c, L[c.name], v, None, fam, fixed_features=[CURSOR], what=cursor_what)
     corr.flush()
     # (d) random well-formed composites
     n_docs = 40000 if big else 3200
